@@ -178,9 +178,12 @@ def judge_launch(nested):
 SAMPLE_ITEMS = ['T', 'H', 'D1', 'D2', 'W', 'O']   # THD_Data, UHdr, UData, UData, unrelated, other thread's UData
 
 
+START_TAIL = [(0, 0)]       # words 3 and 4 of the sampler START record (not the action mask, not the action id)
+
+
 def judge_sampler(flags, items, nframes, hflags=1):
     """hflags: the stack header's own flag word (valid bit set or not: the header is present either way)."""
-    evs = [E.ev('PERF_Event', 1, (flags, 7, 0, 0))]
+    evs = [E.ev('PERF_Event', 1, (flags, 7) + START_TAIL[0])]
     words = []
     for i, it in enumerate(items):
         if it == 'T':
@@ -450,6 +453,16 @@ class C20(Check):
                                      outcome=h64(('sa', flags, 'T' in items, 'H' in items)))
                             if bad:
                                 acc.violation(bad[0], {'kind': 'sampler', 'flags': flags, 'items': list(items), 'nframes': nframes, 'hflags': hflags}, bad[1])
+                            if flags in (0x9, 0x8) and nframes == 3 and hflags == 1:
+                                for tail in ((0xffff, 0x4), (0x5, 0xffffffff), (2 ** 63, 0x1)):
+                                    START_TAIL[0] = tail
+                                    try:
+                                        bad = judge_sampler(flags, items, nframes, hflags)
+                                    finally:
+                                        START_TAIL[0] = (0, 0)
+                                    acc.case(nontrivial=len(items) >= 2, transitions=len(items) + 2, state=h64(('sa', items, tail)), outcome=h64(('sa', flags, tail)))
+                                    if bad:
+                                        acc.violation(bad[0] + '@other-words-of-the-START-record', {'kind': 'sampler', 'flags': flags, 'items': list(items), 'nframes': nframes, 'hflags': hflags, 'start_tail': list(tail)}, bad[1])
                             if flags in (0x9, 0x1) and nframes == 3 and hflags == 1:
                                 for codes in ('alias-added', 'alias-used'):
                                     CODES[0] = codes
@@ -466,10 +479,11 @@ class C20(Check):
     def replay(self, case):
         STAMPS[0] = case.get('stamps', 'up')
         CODES[0] = case.get('codes', 'stock')
+        START_TAIL[0] = tuple(case.get('start_tail', (0, 0)))
         try:
             return self._replay(case)
         finally:
-            STAMPS[0], CODES[0] = 'up', 'stock'
+            STAMPS[0], CODES[0], START_TAIL[0] = 'up', 'stock', (0, 0)
 
     def _replay(self, case):
         k = case['kind']
